@@ -51,6 +51,9 @@ type verifC16Stream struct {
 	OnWrite func(before, n uint64)
 	// DiscardHB: writes equal to this payload are the heartbeat client's; they are counted, not buffered.
 	DiscardHB []byte
+	// MaxDeclared is the maximum message size the stack under test was configured with: a message within
+	// it that is refused for a short buffer means the stack offered too small a buffer.
+	MaxDeclared int
 
 	mu        sync.Mutex
 	wake      chan struct{}
@@ -64,6 +67,13 @@ type verifC16Stream struct {
 	lastHB    time.Time
 	hbSeen    int
 	readCalls int
+	// what the stack has been given, the reference for the byte-stream oracle
+	exp       []byte       // concatenation of the data messages handed out in full before the first error
+	hbOffsets map[int]bool // offsets in exp at which a heartbeat was handed out
+	firstErr  error        // first error returned by Read (script error or short buffer)
+	tailLen   int          // bytes handed out together with firstErr
+	refusedIn int          // messages within MaxDeclared refused with io.ErrShortBuffer
+	refusedLg int          // messages beyond MaxDeclared refused with io.ErrShortBuffer
 
 	buffered uint64
 	lowTh    uint64
@@ -79,7 +89,7 @@ type verifC16Stream struct {
 }
 
 func newVerifC16Stream(items ...verifC16Item) *verifC16Stream {
-	return &verifC16Stream{wake: make(chan struct{}), items: items}
+	return &verifC16Stream{wake: make(chan struct{}), items: items, hbOffsets: map[int]bool{}}
 }
 
 func (s *verifC16Stream) bcastLocked() {
@@ -111,23 +121,51 @@ func (s *verifC16Stream) Read(b []byte) (int, error) {
 			s.next++
 			s.consumed++
 			s.bcastLocked()
+			short := func() (int, error) {
+				if s.MaxDeclared > 0 && len(it.Data) <= s.MaxDeclared {
+					s.refusedIn++
+				} else {
+					s.refusedLg++
+				}
+				if s.firstErr == nil {
+					s.firstErr = io.ErrShortBuffer
+				}
+				return 0, io.ErrShortBuffer
+			}
 			switch it.Kind {
 			case "err":
 				s.sticky = it.Err
+				if s.firstErr == nil {
+					s.firstErr = it.Err
+				}
 				return 0, it.Err
 			case "data+err":
 				s.sticky = it.Err
 				if len(it.Data) > len(b) {
-					return 0, io.ErrShortBuffer
+					return short()
+				}
+				if s.firstErr == nil {
+					s.exp = append(s.exp, it.Data...)
+					s.tailLen = len(it.Data)
+					s.firstErr = it.Err
 				}
 				return copy(b, it.Data), it.Err
-			default:
-				if it.Kind == "hb" {
-					s.hbSeen++
-					s.lastHB = time.Now()
-				}
+			case "hb":
+				s.hbSeen++
+				s.lastHB = time.Now()
 				if len(it.Data) > len(b) {
-					return 0, io.ErrShortBuffer
+					return short()
+				}
+				if s.firstErr == nil {
+					s.hbOffsets[len(s.exp)] = true
+				}
+				return copy(b, it.Data), nil
+			default:
+				if len(it.Data) > len(b) {
+					return short()
+				}
+				if s.firstErr == nil {
+					s.exp = append(s.exp, it.Data...)
 				}
 				return copy(b, it.Data), nil
 			}
@@ -245,6 +283,19 @@ type verifC16StreamState struct {
 	Buffered, Written, Peak, PeakPre                                      uint64
 	Closed                                                                bool
 	LastHB                                                                time.Time
+	ExpLen, TailLen, RefusedIn, RefusedLg                                 int
+	FirstErr                                                              error
+}
+
+// Expected returns the reference byte string and the offsets at which heartbeats were handed out.
+func (s *verifC16Stream) Expected() ([]byte, map[int]bool) {
+	s.mu.Lock()
+	defer s.mu.Unlock()
+	hb := map[int]bool{}
+	for k := range s.hbOffsets {
+		hb[k] = true
+	}
+	return append([]byte{}, s.exp...), hb
 }
 
 func (s *verifC16Stream) State() verifC16StreamState {
@@ -252,7 +303,7 @@ func (s *verifC16Stream) State() verifC16StreamState {
 	defer s.mu.Unlock()
 	return verifC16StreamState{Consumed: s.consumed, Total: len(s.items), Closes: s.closes, Writes: s.writes, HBWrites: s.hbWrites,
 		HBSeen: s.hbSeen, LowFired: s.lowFired, BACalls: s.baCalls, Buffered: s.buffered, Written: s.written, Peak: s.peak, PeakPre: s.peakPre,
-		Closed: s.closed, LastHB: s.lastHB}
+		Closed: s.closed, LastHB: s.lastHB, ExpLen: len(s.exp), TailLen: s.tailLen, RefusedIn: s.refusedIn, RefusedLg: s.refusedLg, FirstErr: s.firstErr}
 }
 
 // WaitState blocks until pred holds on the stream state or the bound passes; it reports whether it held.
